@@ -242,10 +242,14 @@ public:
                 }
                 case subscribtion_type::skip_if_behind: {
                     std::size_t relpos = _pos - l._pos - 1;
-                    if (relpos >= _q.size()) relpos = _q.size()-1;
+                    if (relpos >= _q.size()) {
+                        relpos = _q.size()-1;
+                        l._pos = _pos - relpos - 1; //values were skipped: continue from the position really delivered
+                    }
                     return _q[relpos];
                 }
                 case subscribtion_type::skip_to_recent: {
+                    l._pos = _pos - 1;  //continue from the position really delivered (the most recent one)
                     return _q[0];
                 }
             }
